@@ -1,4 +1,5 @@
 import ShroudVerif.Gen.PyRes
+import ShroudVerif.Gen.Capsule
 /-!
 # C06, Python half: acquire / release discipline of the argument blocks on every exit path
 
@@ -223,5 +224,43 @@ theorem result_pre_call_sites_reset : resultPreCallSites ≠ [] ∧ ∀ r ∈ re
 theorem result_pre_call_twice_loses_block :
     emitPath [(1, 3)] [false, true] true = [(1, 3), (1, 3)] ∧
     (runEvs (emitPath [(1, 3)] [false, true] true) St.init).lost = true := by decide
+
+/-! ### a result released by a user `final` clause: copied out first, released afterwards -/
+
+/-- groups that neither obtain, read nor release the result -/
+def neutralGroup (g : Nat) : Bool := g != 1 && g != 3 && g != 4
+
+theorem flatMap_neutral (l : List Nat) (h : ∀ g ∈ l, neutralGroup g = true) :
+    l.flatMap finalGroupEvents = [] := by
+  induction l with
+  | nil => rfl
+  | cons g gs ih =>
+    have hg := h g (by simp)
+    have hgs := ih (fun x hx => h x (by simp [hx]))
+    simp only [List.flatMap_cons, hgs, List.append_nil]
+    unfold neutralGroup at hg
+    unfold finalGroupEvents
+    split <;> simp_all
+
+/-- **never early, exactly once**: for EVERY order of statement groups in which the call comes
+    before post_call and post_call before final (any other groups anywhere in between), the result is
+    read while it is alive and released exactly once -/
+theorem final_after_copy_out (a b c d : List Nat)
+    (ha : ∀ g ∈ a, neutralGroup g = true) (hb : ∀ g ∈ b, neutralGroup g = true)
+    (hc : ∀ g ∈ c, neutralGroup g = true) (hd : ∀ g ∈ d, neutralGroup g = true) :
+    (runGroups (a ++ [1] ++ b ++ [3] ++ c ++ [4] ++ d)).releasedOnceNeverEarly = true := by
+  unfold runGroups
+  simp only [List.flatMap_append, flatMap_neutral a ha, flatMap_neutral b hb, flatMap_neutral c hc,
+    flatMap_neutral d hd, List.flatMap_cons, List.flatMap_nil, List.append_nil, List.nil_append]
+  decide
+
+/-- regenerated from `Wrapc.wrap_function`: the order the generator uses has that shape -/
+theorem wrap_order_releases_after_copy_out :
+    Shroud.Gen.Capsule.wrapGroupOrder = [0, 1, 2, 3, 4, 5] ∧
+    (runGroups Shroud.Gen.Capsule.wrapGroupOrder).releasedOnceNeverEarly = true := by decide +kernel
+
+/-- sensitivity witness: with `final` ahead of post_call the copy reads released memory -/
+theorem final_before_copy_out_reads_released :
+    (runGroups [0, 1, 2, 4, 3, 5]).dbl = true := by decide
 
 end Shroud.PyRes
